@@ -99,7 +99,7 @@ func NewSpecDB() *SpecDB {
 
 var clauseKeywords = map[string]bool{"import": true, "ghost": true, "spec": true, "def": true, "axiom": true, "lemma": true,
 	"func": true, "extern": true, "requires": true, "ensures": true, "cover": true, "assigns": true, "loop": true, "inline": true,
-	"noinline": true, "dyninline": true, "trusted": true, "maypanic": true, "params": true, "results": true, "havoc": true, "det": true, "uses": true, "lemmauses": true}
+	"noinline": true, "dyninline": true, "trusted": true, "maypanic": true, "params": true, "results": true, "havoc": true, "det": true, "fresh": true, "uses": true, "lemmauses": true}
 
 type rawLine struct {
 	text string
@@ -413,6 +413,8 @@ func (db *SpecDB) stmt(path, pkgPath string, st rawLine, cur **Contract) error {
 		(*cur).MayPanic = true
 	case "det":
 		(*cur).Det = true
+	case "fresh":
+		(*cur).Fresh = true
 	case "lemmauses":
 		db.FileUses[path] = append(db.FileUses[path], strings.Fields(strings.ReplaceAll(rest, ",", " "))...)
 	case "uses":
